@@ -54,6 +54,56 @@ fn stream_side(input: &[u8], max_size: Option<usize>, limit: Option<u64>) {
     }
 }
 
+/// C17 (codec wrappers) replay: encode_read / decode_read twice, for several read sizes.
+fn readwrap_side(enc_side: bool, input: &[u8], counts: &[usize]) {
+    let four = NonZeroUsize::new(4).unwrap();
+    for step in [usize::MAX, 1, 2, 3] {
+        let res = std::panic::catch_unwind(|| {
+            let mut src = Dribble { data: input, step };
+            let mut rets: Vec<String> = Vec::new();
+            let out;
+            if enc_side {
+                let mut enc = hcobs::Encoder::new();
+                for &c in counts {
+                    match enc.encode_read(&mut src, c, four) {
+                        Ok(n) => rets.push(n.to_string()),
+                        Err(_) => rets.push("err".to_string()),
+                    }
+                }
+                out = Some(enc.finish().flatten().expect("no pending backref"));
+            } else {
+                let mut dec = hcobs::Decoder::new();
+                let mut failed = false;
+                for &c in counts {
+                    match dec.decode_read(&mut src, c, four) {
+                        Ok(n) => rets.push(n.to_string()),
+                        Err(_) => {
+                            rets.push("err".to_string());
+                            failed = true;
+                            break;
+                        }
+                    }
+                }
+                out = if failed { None } else { dec.finish().ok().map(|iov| iov.flatten().expect("no pending backref")) };
+            }
+            (rets, input.len() - src.data.len(), out)
+        });
+        match res {
+            Err(_) => println!("READWRAP step={} => PANIC", step),
+            Ok((rets, consumed, out)) => println!(
+                "READWRAP step={} => rets={} consumed={} out={}",
+                step,
+                rets.join(","),
+                consumed,
+                match out {
+                    None => "none".to_string(),
+                    Some(b) => b.iter().map(|x| x.to_string()).collect::<Vec<_>>().join("."),
+                }
+            ),
+        }
+    }
+}
+
 fn main() {
     let args: Vec<String> = std::env::args().collect();
     let side = args[1].clone();
@@ -65,6 +115,10 @@ fn main() {
     if side == "stream" {
         let opt = |s: &str| if s == "none" { None } else { Some(s.parse::<u64>().unwrap()) };
         stream_side(&input, opt(&args[3]).map(|x| x as usize), opt(&args[4]));
+        return;
+    }
+    if side == "readwrap-enc" || side == "readwrap-dec" {
+        readwrap_side(side == "readwrap-enc", &input, &parse_list(&args[3]));
         return;
     }
     let mut cuts = parse_list(&args[3]);
